@@ -147,12 +147,106 @@ fn shader_stages(out: &mut Vec<Outcome>) {
     out.push(Outcome { name: "stages.union-contains-eq-collect (all 64 pairs)".into(), ok, detail: String::new() });
 }
 
+/// The spec functions that transcribe dependency functions (spec/lib, marked `//@conform`), compiled as plain Rust from the
+/// very text Verus reads, against the real functions on their whole finite domain / on one value per variant.
+fn transcriptions(out: &mut Vec<Outcome>) {
+    use generated::transcribed as t;
+    // naga::Literal::zero over every kind x width 0..=16
+    let kinds = [naga::ScalarKind::Sint, naga::ScalarKind::Uint, naga::ScalarKind::Float, naga::ScalarKind::Bool, naga::ScalarKind::AbstractInt, naga::ScalarKind::AbstractFloat];
+    let mut ok = true;
+    let mut n = 0;
+    for kind in kinds { for width in 0u8..=16 {
+        let s = naga::Scalar { kind, width };
+        n += 1;
+        let (a, b) = (naga::Literal::zero(s), t::lit_zero(s));
+        // compare bit patterns for floats (0.0 vs -0.0)
+        let same = match (a, b) { (Some(naga::Literal::F32(x)), Some(naga::Literal::F32(y))) => x.to_bits() == y.to_bits(), (Some(naga::Literal::F64(x)), Some(naga::Literal::F64(y))) => x.to_bits() == y.to_bits(), (x, y) => x == y };
+        if !same { ok = false; out.push(Outcome { name: format!("transcribed.lit_zero {:?}", s), ok: false, detail: format!("naga {:?} spec {:?}", a, b) }); }
+    } }
+    out.push(Outcome { name: format!("transcribed.lit_zero ({} scalars)", n), ok, detail: String::new() });
+    // naga::TypeInner::scalar: one value per variant that can be built without a module
+    let sc = naga::Scalar { kind: naga::ScalarKind::Float, width: 4 };
+    let mut types = naga::UniqueArena::new();
+    let h = types.insert(naga::Type { name: None, inner: naga::TypeInner::Scalar(sc) }, naga::Span::UNDEFINED);
+    let inners = vec![
+        naga::TypeInner::Scalar(sc), naga::TypeInner::Scalar(naga::Scalar { kind: naga::ScalarKind::Uint, width: 8 }),
+        naga::TypeInner::Vector { size: naga::VectorSize::Tri, scalar: sc },
+        naga::TypeInner::Matrix { columns: naga::VectorSize::Bi, rows: naga::VectorSize::Quad, scalar: sc },
+        naga::TypeInner::Atomic(sc),
+        naga::TypeInner::Pointer { base: h, space: naga::AddressSpace::Function },
+        naga::TypeInner::ValuePointer { size: Some(naga::VectorSize::Bi), scalar: sc, space: naga::AddressSpace::Private },
+        naga::TypeInner::Array { base: h, size: naga::ArraySize::Dynamic, stride: 4 },
+        naga::TypeInner::Struct { members: vec![], span: 0 },
+        naga::TypeInner::Image { dim: naga::ImageDimension::D2, arrayed: false, class: naga::ImageClass::Depth { multi: false } },
+        naga::TypeInner::Sampler { comparison: true },
+        naga::TypeInner::AccelerationStructure, naga::TypeInner::RayQuery,
+        naga::TypeInner::BindingArray { base: h, size: naga::ArraySize::Dynamic },
+    ];
+    let mut ok = true;
+    for i in &inners {
+        if i.scalar() != t::inner_scalar(i.clone()) { ok = false; out.push(Outcome { name: format!("transcribed.inner_scalar {:?}", i), ok: false, detail: format!("naga {:?} spec {:?}", i.scalar(), t::inner_scalar(i.clone())) }); }
+    }
+    out.push(Outcome { name: format!("transcribed.inner_scalar ({} type shapes)", inners.len()), ok, detail: String::new() });
+    // naga::Statement::is_terminator
+    let stmts = vec![
+        naga::Statement::Break, naga::Statement::Continue, naga::Statement::Return { value: None }, naga::Statement::Kill,
+        naga::Statement::Barrier(naga::Barrier::STORAGE), naga::Statement::Block(naga::Block::new()),
+        naga::Statement::Loop { body: naga::Block::new(), continuing: naga::Block::new(), break_if: None },
+    ];
+    let mut ok = true;
+    for s in &stmts {
+        if s.is_terminator() != t::stmt_is_terminator(s.clone()) { ok = false; out.push(Outcome { name: format!("transcribed.is_terminator {:?}", s), ok: false, detail: String::new() }); }
+    }
+    out.push(Outcome { name: format!("transcribed.is_terminator ({} statements)", stmts.len()), ok, detail: String::new() });
+    // StorageAccess bits and `contains`
+    out.push(Outcome { name: "transcribed.StorageAccess bits".into(), ok: naga::StorageAccess::LOAD.bits() == t::SA_LOAD && naga::StorageAccess::STORE.bits() == t::SA_STORE && naga::StorageAccess::ATOMIC.bits() == t::SA_ATOMIC,
+                       detail: format!("{} {} {}", naga::StorageAccess::LOAD.bits(), naga::StorageAccess::STORE.bits(), naga::StorageAccess::ATOMIC.bits()) });
+    let mut ok = true;
+    for a in 0u32..8 { for b in 0u32..8 {
+        let (x, y) = (naga::StorageAccess::from_bits_truncate(a), naga::StorageAccess::from_bits_truncate(b));
+        ok &= x.contains(y) == (x.bits() & y.bits() == y.bits());
+    } }
+    out.push(Outcome { name: "transcribed.StorageAccess::contains (64 pairs)".into(), ok, detail: String::new() });
+    // vf_shape against wgpu-types: byte size and the variant's own name
+    let mut ok = true;
+    let mut named = 0;
+    for f in t::ALL_VERTEX_FORMATS {
+        if let Some((kind, w, n)) = t::vf_shape(f) {
+            named += 1;
+            let prefix = match kind { naga::ScalarKind::Uint => "Uint", naga::ScalarKind::Sint => "Sint", naga::ScalarKind::Float => "Float", _ => "?" };
+            let want = if n == 1 { format!("{}{}", prefix, w * 8) } else { format!("{}{}x{}", prefix, w * 8, n) };
+            if format!("{:?}", f) != want || f.size() != (w * n) as u64 { ok = false; out.push(Outcome { name: format!("transcribed.vf_shape {:?}", f), ok: false, detail: format!("spec says {} size {}", want, w * n) }); }
+        }
+    }
+    out.push(Outcome { name: format!("transcribed.vf_shape ({} formats named by the spec)", named), ok: ok && named == 24, detail: String::new() });
+    // arena model: iteration yields handle i at position i, Index returns that element
+    let mut arena: naga::Arena<naga::Constant> = naga::Arena::new();
+    let mut ok = true;
+    let mut hs = vec![];
+    let mut exprs: naga::Arena<naga::Expression> = naga::Arena::new();
+    let e0 = exprs.append(naga::Expression::Literal(naga::Literal::U32(0)), naga::Span::UNDEFINED);
+    for k in 0..5u32 {
+        hs.push(arena.append(naga::Constant { name: Some(format!("c{k}")), ty: h, init: e0 }, naga::Span::UNDEFINED));
+    }
+    for (pos, (hh, c)) in arena.iter().enumerate() {
+        ok &= hh.index() == pos && hh == hs[pos] && c.name == arena[hh].name && c.name.as_deref() == Some(format!("c{pos}").as_str());
+    }
+    ok &= arena.len() == 5 && !arena.is_empty();
+    let mut ua = naga::UniqueArena::new();
+    let t0 = ua.insert(naga::Type { name: None, inner: naga::TypeInner::Scalar(sc) }, naga::Span::UNDEFINED);
+    let t1 = ua.insert(naga::Type { name: Some("S".into()), inner: naga::TypeInner::Struct { members: vec![], span: 0 } }, naga::Span::UNDEFINED);
+    let t0b = ua.insert(naga::Type { name: None, inner: naga::TypeInner::Scalar(sc) }, naga::Span::UNDEFINED);
+    ok &= t0 == t0b && t0.index() == 0 && t1.index() == 1 && ua.iter().enumerate().all(|(p, (hh, ty))| hh.index() == p && ua[hh] == *ty);
+    out.push(Outcome { name: "model.arena: iteration order = handle index, Index returns that element (Arena, UniqueArena)".into(), ok, detail: String::new() });
+}
+
 fn main() {
     let mut out = Vec::new();
     generated::templates(&mut out);
     let n_templates = out.len();
     shader_stages(&mut out);
     generated::debug_names(&mut out);
+    transcriptions(&mut out);
     let bad: Vec<&Outcome> = out.iter().filter(|o| !o.ok).collect();
     let esc = |s: &str| s.replace('\\', "\\\\").replace('"', "\\\"");
     println!("{{\"comparisons\": {}, \"template_comparisons\": {}, \"failed\": [{}]}}", out.len(), n_templates,
